@@ -104,6 +104,24 @@ static void seal_case(int which /*0 xsalsa, 1 xchacha*/, size_t mlen, int pat, i
         r = which ? crypto_box_curve25519xchacha20poly1305_seal_open(dm, c + 16, mlen + 48, BOX_TABLE[row].pkb, BOX_TABLE[row].skb) : crypto_box_seal_open(dm, c + 16, mlen + 48, BOX_TABLE[row].pkb, BOX_TABLE[row].skb);
         if (r != 0 || memcmp(dm, m, mlen)) vf_fail(key, "seal_open failed on its own output");
     }
+    /* the message inside the output buffer (sealing in place): m == c, m == c + 32 (where the box starts), m == c + 48 (where the ciphertext ends up),
+     * and every other start in [c - 8, c + 56] for short messages; seal_open with the message recovered in place */
+    if (mlen > 0 && (mlen <= 70 || mlen % 64 <= 1)) {
+        unsigned char *arena = malloc(mlen + 256); int off, lo = mlen <= 70 ? -8 : 0, hi = mlen <= 70 ? 56 : 48;
+        for (off = lo; off <= hi; off += (mlen <= 70 ? 1 : 16)) {
+            unsigned char *cc = arena + 64, *mm = cc + off;
+            memset(arena, 0xA5, mlen + 256); memcpy(mm, m, mlen);
+            rng_script = BOX_TABLE[row].ska; rng_left = 32; rng_strict = 1;
+            r = which ? crypto_box_curve25519xchacha20poly1305_seal(cc, mm, mlen, BOX_TABLE[row].pkb) : crypto_box_seal(cc, mm, mlen, BOX_TABLE[row].pkb);
+            n_eval++; n_nontriv++; rng_strict = 0;
+            if (r != 0 || memcmp(cc, BOX_TABLE[row].pka, 32) || memcmp(cc + 32, tag_ref, 16) || memcmp(cc + 48, c_ref, mlen)) {
+                snprintf(key, sizeof key, "%s/in-place/mlen=%zu/message-at=c%+d/row=%d", which ? "box_seal_xchacha" : "box_seal", mlen, off, row); vf_fail(key, "sealing with the message inside the output buffer differs from epk || box(m)"); break; }
+            memset(arena, 0xA5, 64); mm = cc + off;       /* open with the output placed at the same relative position */
+            r = which ? crypto_box_curve25519xchacha20poly1305_seal_open(mm, cc, mlen + 48, BOX_TABLE[row].pkb, BOX_TABLE[row].skb) : crypto_box_seal_open(mm, cc, mlen + 48, BOX_TABLE[row].pkb, BOX_TABLE[row].skb);
+            if (r != 0 || memcmp(mm, m, mlen)) { snprintf(key, sizeof key, "%s_open/in-place/mlen=%zu/message-at=c%+d/row=%d", which ? "box_seal_xchacha" : "box_seal", mlen, off, row); vf_fail(key, "opening with the message buffer inside the sealed box failed (ret %d)", r); break; }
+        }
+        free(arena);
+    }
     (void) C; (void) adlen;
     free(m); free(c); free(c_ref); free(dm);
 }
